@@ -203,11 +203,13 @@ class Parser:
             )
             self.eat(TokenKind.RANGE_OP)
             stop_token = self.eat(TokenKind.CHAR)
-            left = Range(
-                start,
-                unescape_string(stop_token.value[1:-1], token, quote="'"),
-                tag=tag,
-            )
+            stop = unescape_string(stop_token.value[1:-1], stop_token, quote="'")
+            if start > stop:
+                raise PestGrammarSyntaxError(
+                    "the start of a range must not be greater than its end",
+                    token=token,
+                )
+            left = Range(start, stop, tag=tag)
         elif left_kind == TokenKind.POSITIVE_PREDICATE:
             self.pos += 1
             left = PositivePredicate(self.parse_expression(PRECEDENCE_PREFIX), tag=tag)
